@@ -113,6 +113,10 @@ func DecodeAttributeQuery(request string) (*samlp.AttributeQueryType, error) {
 		return nil, err
 	}
 
+	if attrEnv.Body.AttributeQuery == nil {
+		return nil, fmt.Errorf("no attribute query in soap body")
+	}
+
 	return attrEnv.Body.AttributeQuery, nil
 }
 
